@@ -30,6 +30,7 @@ OBLIGATIONS = [
     "VgiVerif.C10.C10_shapes",
     "VgiVerif.C10.C10_retry_shapes",
     "VgiVerif.C10.C10_collector_shapes",
+    "VgiVerif.C10.C10_serve_loop_shapes",
     "VgiVerif.C10.C10_step_order",
     "VgiVerif.C10.C10_inputs_schema",
     "VgiVerif.C10.C10_inputs_reject",
@@ -62,6 +63,9 @@ PARTIAL = [
     "lightly exercised; HttpStreamSession has no tick()",
 ]
 RULE = (
+    "raises: half of the generated raises use a class the framework's own control flow catches (StopIteration, EOFError, "
+    "BrokenPipeError, ConnectionResetError, OSError, ArrowInvalid, TimeoutError), plus the grid of each such class raised at the "
+    "first step / after a batch / after logs / in an op-level step / at init x producer, exchange x socket transports and HTTP; "
     "steps: svcgen {logs, act, post} steps, or (35%) op-level steps = a shuffled list of the collector calls of one process() "
     "(client_log / emit / finish, now and then a raise or a second emit) so finish() comes before or after emit(); plus the grid of "
     "every order of {emit, finish, log, log} in one step; coerce: declared schemas of 0-3 fields over 8 Arrow types x batches derived by identity / reorder / retype / extra / missing / "
@@ -278,6 +282,10 @@ def gen_method(rng: Any, kind: str | None = None) -> dict[str, Any]:
     kind = kind or rng.choice(["producer", "producer", "exchange"])
     init: Any = "ok" if rng.random() < 0.92 else {"raise": c01.gen_exc(rng)}
     steps = gen_op_steps(rng, kind == "exchange") if rng.random() < 0.35 else c01.gen_steps(rng, kind == "exchange")
+    for st in steps:                      # raises: half of them with a class the framework's own control flow uses
+        for holder in ([st["act"]] if isinstance(st.get("act"), dict) else []) + [{"raise": o[1]} for o in st.get("ops", []) if o[0] == "raise"]:
+            if "raise" in holder and rng.random() < 0.5:
+                holder["raise"]["cls"] = rng.choice(CONTROL_FLOW_EXCS)
     return {"name": "m", "kind": kind, "header": rng.random() < 0.4, "hdr": rng.randrange(100), "init_logs": c01.gen_logs(rng, 2),
             "init": init, "steps": steps}
 
@@ -821,6 +829,38 @@ def order_grid(ctx: Any) -> None:
                               cfgs[1], extra_tags=("order-grid",))
 
 
+# classes the framework's own control flow catches somewhere (end of input, broken transport, malformed IPC, timeouts):
+# raised by the state they are implementation errors like any other — a stream ends only by finish or by a reported error
+CONTROL_FLOW_EXCS = ["StopIteration", "EOFError", "BrokenPipeError", "ConnectionResetError", "OSError", "ArrowInvalid", "TimeoutError"]
+
+
+def control_flow_grid(ctx: Any) -> None:
+    """Every control-flow exception class raised by process() (first step / after a batch / after logs / inside an op-level
+    step / by the method body at init), producer and exchange, consumed to the end, on every socket transport and HTTP."""
+    rng = __import__("random").Random(5)
+    socks = [Config("pipe"), Config("unix"), Config("tcp"), Config("shm")]
+    https = [Config("http", None, "zstd"), Config("http", 1_000_000, None)]
+    ok = lambda v: ["send", {"cols": input_cols(rng, "ok", v)}]  # noqa: E731
+    for i, cls in enumerate(CONTROL_FLOW_EXCS):
+        exc = {"cls": cls, "arg": "from process()"}
+        R = {"logs": [L("before")], "act": {"raise": exc}, "post": []}
+        scripts = [[R], [EM(1), R], [EM(1, 1, 1), EM(2), R, EM(4)],
+                   [EM(1), {"ops": [["log", L("a")], ["emit", {"id": 2, "rows": 1, "meta": {}}], ["raise", exc]]}]]
+        cfgs = [socks[i % 4], socks[(i + 1) % 4]] + https if ctx.tier != "thorough" else socks + https
+        for steps in scripts:
+            for kind in ("producer", "exchange"):
+                m = {"name": "m", "kind": kind, "header": i % 2 == 1, "hdr": 3, "init_logs": [L("il")], "init": "ok", "steps": steps}
+                ops = [["iter", None]] if kind == "producer" else [ok(k) for k in range(len(steps))]
+                for cfg in cfgs:
+                    check_session(ctx, m, ops, cfg, extra_tags=("cf-grid", f"cf:{cls}"))
+                if kind == "producer":
+                    check_session(ctx, m, [["next"]] * (len(steps) + 1) + [["cancel"]], cfgs[0], extra_tags=("cf-grid", f"cf:{cls}"))
+        for hdr in (False, True):
+            m = {"name": "m", "kind": "producer", "header": hdr, "hdr": 3, "init_logs": [L("il")], "init": {"raise": exc}, "steps": [EM(1)]}
+            for cfg in cfgs[:1] + https[:1]:
+                check_session(ctx, m, [["iter", None]], cfg, extra_tags=("cf-grid", f"cf:{cls}"))
+
+
 def exhaustive_grid(ctx: Any) -> None:
     """every step script of length ≤ 2 over {emit, finish, emit+finish, raise} × every cancel point × 3 transports"""
     acts = [lambda i: {"emit": {"id": i, "rows": 1, "meta": {}}}, lambda i: "finish", lambda i: {"emit_finish": {"id": i, "rows": 1, "meta": {}}},
@@ -860,6 +900,9 @@ def run(ctx: Any) -> None:
             check_session(ctx, m, ops, cfg, extra_tags=("corpus",))
     for m, ops, net in _net_corpus():
         check_session(ctx, m, ops, Config("http", None, "zstd"), extra_tags=("corpus", "corpus:net"), net=net)
+    control_flow_grid(ctx)
+    ctx.note("control_flow_grid", "process() / the method body raising " + ", ".join(CONTROL_FLOW_EXCS) + ": first step, after a batch, "
+                                  "after logs, inside an op-level step, at init; producer and exchange; socket transports and HTTP")
     order_grid(ctx)
     exhaustive_grid(ctx)
     ctx.note("order_grid", "every order of the collector calls {emit, finish, log[, log]} inside one process() call, as first / "
